@@ -252,7 +252,11 @@ class Model(LPModel):
 
             eye_indices = [item for inner in primal.qmat for item in inner]
             eye_block = dual_lp.linear[eye_indices, :]
-            if len(eye_block.data) + 1 == len(eye_block.indptr):
+            heads = dual_lp.linear[[qc[0] for qc in primal.qmat], :]
+            if (len(eye_block.data) + 1 == len(eye_block.indptr) and
+                    np.all(np.abs(eye_block.data) == 1) and
+                    np.all(heads.data == 1) and
+                    not np.any(dual_lp.const[eye_indices])):
                 lin_indices = [ind for ind in range(primal.linear.shape[1])
                                if ind not in eye_indices]
                 linear = dual_lp.linear[lin_indices, :]
